@@ -14,18 +14,28 @@
 (***************************************************************************)
 EXTENDS Naturals, Sequences, TLC
 
-Min(a, b) == IF a < b THEN a ELSE b
-\* first position at which two sequences differ (Min(len) + 1 if one is a proper prefix), 0 if equal
+Min2(a, b) == IF a < b THEN a ELSE b
+\* first position at which two sequences differ (Min2(len) + 1 if one is a proper prefix), 0 if equal
 FirstDiff(a, b) ==
   IF a = b THEN 0
-  ELSE IF \E k \in 1..Min(Len(a), Len(b)) : a[k] # b[k]
-       THEN CHOOSE k \in 1..Min(Len(a), Len(b)) : a[k] # b[k] /\ \A j \in 1..(k - 1) : a[j] = b[j]
-       ELSE Min(Len(a), Len(b)) + 1
+  ELSE IF \E k \in 1..Min2(Len(a), Len(b)) : a[k] # b[k]
+       THEN CHOOSE k \in 1..Min2(Len(a), Len(b)) : a[k] # b[k] /\ \A j \in 1..(k - 1) : a[j] = b[j]
+       ELSE Min2(Len(a), Len(b)) + 1
 
-\* c = [t1, t2, ir1, ir2]; result: the findings <<clause, position>> (empty: the property holds for the case)
+\* Exemption (documented frontend behaviour: FortranReader strips the source text before reading): empty lines at the
+\* very beginning and end of a text, and the images "BLANK" of the empty-line comments that end an IR, do not count.
+RECURSIVE DropLead(_, _), DropTrail(_, _)
+DropLead(s, b) == IF s # <<>> /\ s[1] = b THEN DropLead(Tail(s), b) ELSE s
+DropTrail(s, b) == IF s # <<>> /\ s[Len(s)] = b THEN DropTrail(SubSeq(s, 1, Len(s) - 1), b) ELSE s
+Trim(s, b) == DropTrail(DropLead(s, b), b)
+LeadCount(s, b) == Len(s) - Len(DropLead(s, b))
+
+\* c = [t1, t2, ir1, ir2]; result: the findings <<clause, position>> (empty: the property holds for the case);
+\* positions refer to the untrimmed t1 / ir1
 Findings(c) ==
-  LET dt == FirstDiff(c.t1, c.t2)
-      di == FirstDiff(c.ir1, c.ir2)
+  LET dt0 == FirstDiff(Trim(c.t1, ""), Trim(c.t2, ""))
+      dt == IF dt0 = 0 THEN 0 ELSE dt0 + LeadCount(c.t1, "")
+      di == FirstDiff(DropTrail(c.ir1, "BLANK"), DropTrail(c.ir2, "BLANK"))
   IN (IF dt = 0 THEN <<>> ELSE <<<<"text-fixpoint", dt>>>>) \o (IF di = 0 THEN <<>> ELSE <<<<"ir-identical", di>>>>)
 
 (***************************************************************************)
